@@ -179,7 +179,8 @@ def execute(scenario, prof, seed, trace=None, then_generate=False, props=(), deb
     w = SimWorld(scenario, ch, root, props=props, max_steps=prof.get("max_steps", 30000), debug=debug)
     t0 = _t.perf_counter()
     try:
-        materialise(scenario, w)
+        if not prof.get("no_materialise"):
+            materialise(scenario, w)
         drv_cls = prof.get("driver_cls") or Driver
         w.driver = drv_cls(w, prof)
         w.quiescent_hook = w.driver.quiescent
